@@ -10,12 +10,16 @@ INVS = ["SymResultSymmetric", "SymIdempotent", "SkewResult", "SymmetricFixedPoin
 ENTRIES = (-1, 0, 2)
 
 
-def observe(op, m, m2=None):
+SCALES = (1.0, 2.0 ** -40, 2.0 ** 40, 2.0 ** -80)     # the helpers must not depend on the magnitude of the entries
+
+
+def observe(op, m, m2=None, scale=1.0):
     import compmech.sparse as sp
     from scipy.sparse import coo_matrix, csr_matrix
-    M = np.array(m, dtype=float)
+    M = np.array(m, dtype=float) * scale
     wrap = [coo_matrix, csr_matrix, np.asarray][(len(m) + int(M.sum())) % 3] if op != "remove_null_cols" else csr_matrix
-    toint = lambda A: [[int(v) for v in row] for row in np.asarray(A.toarray() if hasattr(A, "toarray") else A)]
+    toint = lambda A: [[int(round(v / scale)) if abs(v / scale - round(v / scale)) < 1e-9 else 999 for v in row]
+                       for row in np.asarray(A.toarray() if hasattr(A, "toarray") else A)]
     if op == "make_symmetric":
         return toint(sp.make_symmetric(wrap(M)))
     if op == "finalize_symmetric_matrix":
@@ -25,7 +29,7 @@ def observe(op, m, m2=None):
     if op == "is_symmetric":
         return bool(sp.is_symmetric(wrap(M)))
     if op == "remove_null_cols":
-        a, b, used = sp.remove_null_cols(csr_matrix(M), coo_matrix(np.array(m2, dtype=float)), silent=True)
+        a, b, used = sp.remove_null_cols(csr_matrix(M), coo_matrix(np.array(m2, dtype=float) * scale), silent=True)
         return dict(m1=toint(a), m2=toint(b), used=[int(u) for u in used])
     raise ValueError(op)
 
@@ -44,7 +48,7 @@ def events(tier, rng):
         # [[2,-1,0],[-1,0,2],[2,0,-1]]; no listed property depends on it (see DESIGN.md 10.6)
         for op in ("make_symmetric", "make_skew_symmetric", "remove_null_cols"):
             e = dict(id=len(evs), op=op, m=m, m2=mt)
-            e["obs"] = observe(op, m, mt)
+            e["obs"] = observe(op, m, mt, SCALES[len(evs) % len(SCALES)])
             evs.append(e)
     # larger random matrices with null rows/columns, incl. the finalize wrapper and the solve scatter pattern
     for _ in range(60 if tier == "quick" else 600):
@@ -57,7 +61,7 @@ def events(tier, rng):
         mt = [list(r) for r in zip(*m)]
         for op in ("make_symmetric", "finalize_symmetric_matrix", "make_skew_symmetric", "remove_null_cols"):
             e = dict(id=len(evs), op=op, m=m, m2=mt)
-            e["obs"] = observe(op, m, mt)
+            e["obs"] = observe(op, m, mt, SCALES[len(evs) % len(SCALES)])
             evs.append(e)
         # solve(): diagonally dominant system on the used columns; zeros elsewhere must be exact
         import compmech.sparse as sp
